@@ -10,7 +10,7 @@ MCNext ==
   \/ Terminal /\ UNCHANGED last
 MCSpec == MCInit /\ [][MCNext]_<<vars, last>>
 MCNextU ==
-  IF \E a \in Actors : pc[a] \in InternalPcs \/ (a = "d" /\ pc[a] = "drain" /\ (ev \/ ended["c1"] # "no"))
+  IF \E a \in Actors : pc[a] \in InternalPcs \/ (a = "d" /\ pc[a] \in {"drain", "join_wait"} /\ (ev \/ ended["c1"] # "no"))
                          \/ (a = "d" /\ pc[a] = "join2" /\ ended["c2"] # "no")
     THEN \E a \in Actors : Internal(a) /\ last' = <<"~", a, -1>>
     ELSE \/ \E a \in Actors : Step(a) /\ last' = <<a, pc[a], -1>>
